@@ -206,7 +206,7 @@ func canonAns(ans string) string {
 		return "c"
 	case ansTimeout, "-":
 		return "l"
-	case ansBroken, "":
+	case ansBroken, ansReset, "":
 		return "x"
 	}
 	return ans
@@ -327,6 +327,8 @@ func (r *runner) oracle() {
 					cls = "added-address-answered-by-other-config"
 				}
 				r.fail(cls, fmt.Sprintf("%s: %s answered by config %s; only %q may", where, name, x, allowed))
+			case mustServe && x == ansReset && !isUnix(a) && ev.win:
+				r.fail("tcp-connection-reset-while-listener-closes", fmt.Sprintf("%s: connection to retained address %s was reset while the replaced config's listener on it was being closed", where, name))
 			case mustServe && !served:
 				r.fail("retained-address-not-served", fmt.Sprintf("%s: connection to %s, which config %d holds and its successor keeps: %q", where, name, old, x))
 			case takeover && !inOld && inCand && candStarted[cand] && !served:
@@ -463,6 +465,14 @@ func (r *runner) tags() []string {
 	}
 	sort.Strings(out)
 	return out
+}
+
+// Failure classes the unchanged upstream tree exhibits (see known_findings.jsonl); the
+// model mirrors them, so they do not make the verdict differ from the model's.
+var upstreamClasses = map[string]bool{
+	"dropped-unix-socket-still-accepting":        true,
+	"unix-reuse-of-closed-listener":              true,
+	"tcp-connection-reset-while-listener-closes": true,
 }
 
 // ---- generator
@@ -669,11 +679,11 @@ func (p *prop) runScenario(sc scenario) (core.Outcome, string) {
 	r.oracle()
 	if os.Getenv("VERIF_C02_DEBUG") != "" {
 		fmt.Fprint(os.Stderr, r.dump())
-		fmt.Fprintf(os.Stderr, "traffic ok=%d refused=%d broken=%d stale=%d fails %v\n", r.traffic.ok, r.traffic.refused, r.traffic.broken, r.traffic.stale, r.fails)
+		fmt.Fprintf(os.Stderr, "traffic ok=%d refused=%d reset=%d broken=%d stale=%d fails %v\n", r.traffic.ok, r.traffic.refused, r.traffic.reset, r.traffic.broken, r.traffic.stale, r.fails)
 	}
 	verdict := "accept"
 	for _, f := range r.fails {
-		if f.Class != "dropped-unix-socket-still-accepting" && f.Class != "unix-reuse-of-closed-listener" {
+		if !upstreamClasses[f.Class] {
 			verdict = "oracle-fail"
 		}
 	}
